@@ -314,7 +314,7 @@ func run(sc *scenario, scratch string) ([]map[string]any, error) {
 			}
 			s.emit(map[string]any{"op": "Publish", "ids": ids, "sizes": st.Sizes})
 			s.mu.Unlock()
-		case "Ack", "Nack", "ExtAck":
+		case "Ack", "Nack", "ExtAck", "NackExt":
 			s.mu.Lock()
 			m, ok := nthWire(st.J)
 			if !ok {
@@ -322,8 +322,27 @@ func run(sc *scenario, scratch string) ([]map[string]any, error) {
 				continue
 			}
 			id := s.ackID[m]
+			// NackExt: ONE request that nacks m (deadline 0) and extends another outstanding
+			// message (deadline 30 s): in the contract that is a nack of m and nothing else
+			extID := ""
+			if st.Op == "NackExt" {
+				var ws []int
+				for x := range s.wire {
+					if x != m {
+						ws = append(ws, x)
+					}
+				}
+				sort.Ints(ws)
+				if len(ws) > 0 {
+					extID = s.ackID[ws[0]]
+				}
+			}
 			delete(s.wire, m)
-			s.emit(map[string]any{"op": st.Op, "ids": []int{m}})
+			evOp := st.Op
+			if evOp == "NackExt" {
+				evOp = "Nack"
+			}
+			s.emit(map[string]any{"op": evOp, "ids": []int{m}})
 			s.mu.Unlock()
 			var err error
 			switch st.Op {
@@ -331,6 +350,13 @@ func run(sc *scenario, scratch string) ([]map[string]any, error) {
 				err = stream.Send(&pubsubpb.StreamingPullRequest{AckIds: []string{id}})
 			case "Nack": // a nack on the gRPC stream is a zero modify-deadline
 				err = stream.Send(&pubsubpb.StreamingPullRequest{ModifyDeadlineAckIds: []string{id}, ModifyDeadlineSeconds: []int32{0}})
+			case "NackExt":
+				req := &pubsubpb.StreamingPullRequest{ModifyDeadlineAckIds: []string{id}, ModifyDeadlineSeconds: []int32{0}}
+				if extID != "" {
+					req.ModifyDeadlineAckIds = append(req.ModifyDeadlineAckIds, extID)
+					req.ModifyDeadlineSeconds = append(req.ModifyDeadlineSeconds, 30)
+				}
+				err = stream.Send(req)
 			case "ExtAck":
 				_, err = w.Sub.Acknowledge(cctx, &pubsubpb.AcknowledgeRequest{Subscription: sub, AckIds: []string{id}})
 			}
